@@ -6,7 +6,7 @@
    idempotent; every tree is printed with its normal form; (4) maps for the properties round trip. *)
 EXTENDS Codec, Json, SequencesExt
 CONSTANTS L, EMIT
-Sigma == {0, 9, 65, 61, 233, 8364, 128512, 32}          \* NUL TAB A = e-acute euro emoji space
+Sigma == {0, 9, 65, 61, 233, 8364, 128512, 32, 65279}   \* NUL TAB A = e-acute euro emoji space, U+FEFF (its UTF-8 form is the byte-order signature EF BB BF)
 VARIABLE t
 Init == t = <<>>
 Next == Len(t) < L /\ \E c \in Sigma : t' = Append(t, c)
